@@ -106,6 +106,8 @@ Definition class_C05 (braces : bool) (a : chain) : nat :=
   else if cls_sibling_before_mult a then 6%nat
   else if cls_mult_at_end braces a then 7%nat
   else if cls_pct_at_end braces a then 8%nat
+  else if cls_nodemult_order_in_unit a then 9%nat
+  else if cls_stale_recipe a then 10%nat
   else 0%nat.
 (** shorthand against longhand, both as read by the implementation; the numbering must be the
     same unless a branch is multiplied *)
